@@ -231,18 +231,18 @@ func (r *recorder) exit(kind, path string) {
 // ---- one run -----------------------------------------------------------------------------------
 
 type runCfg struct {
-	Shape      string `json:"shape"`
-	P          int    `json:"producents"`
-	C          int    `json:"consumers"`
-	OnDir      bool   `json:"on_dir"`
-	OnFile     bool   `json:"on_file"`
-	UseDirF    bool   `json:"dir_filter"`
-	UseFileF   bool   `json:"file_filter"`
-	Fault      string `json:"fault"` // "", "file-cb", "dir-cb", "readdir"
-	Noise      int    `json:"noise"` // 0 none, 1 gosched, 2 gosched+sleep
-	Hold       int    `json:"hold"`  // callback hold (gosched rounds)
-	Script     string `json:"script"` // "", "gap", "between"
-	ViaCopy    bool   `json:"via_copy"`
+	Shape    string `json:"shape"`
+	P        int    `json:"producents"`
+	C        int    `json:"consumers"`
+	OnDir    bool   `json:"on_dir"`
+	OnFile   bool   `json:"on_file"`
+	UseDirF  bool   `json:"dir_filter"`
+	UseFileF bool   `json:"file_filter"`
+	Fault    string `json:"fault"`  // "", "file-cb", "dir-cb", "readdir"
+	Noise    int    `json:"noise"`  // 0 none, 1 gosched, 2 gosched+sleep
+	Hold     int    `json:"hold"`   // callback hold (gosched rounds)
+	Script   string `json:"script"` // "", "gap", "between"
+	ViaCopy  bool   `json:"via_copy"`
 }
 
 func effConsumers(c int) int {
